@@ -309,7 +309,10 @@ def task_file(rel, tier, part=0, nparts=1):
         if no is None or no in symlines: continue
         toks = cc.tokenize_row(raw[no], tables[tn]['int_first'])
         toks_of[no] = toks
-        s, cs = c05.symbolize('L%d' % no, raw[no], toks, set() if no in P['layout'] else None)
+        # sign cells: all, except in the layout lines and before a number printed with a letterless
+        # three-digit exponent (its sign cell would fork fortran_float's fallback cascade)
+        signs = set() if no in P['layout'] else set(j for j, t in enumerate(toks) if not (t['exp'] is not None and t['exp']['letter'] is None))
+        s, cs = c05.symbolize('L%d' % no, raw[no], toks, signs)
         symlines[no] = s
         if cs: cons.append(z3.And(*cs))
     lines = list(raw)
